@@ -79,14 +79,11 @@ def fmtErr : Err → String
   | .check => "err:check"
   | .dup => "err:1062"
 
-/-- Region predicates (defect classes decided on the table and the statement). -/
-def regionOf (T : Table) (st : Stmt) : String :=
-  let ign := match st with
-    | .insert ig _ _ => ig
-    | .update ig _ _ => ig
-    | .delete _ => false
-  if T.hasVirtual && T.checks.any (·.enforced) then "virtual_column_disables_checks"
-  else if ign && T.cols.any (·.notNull) then "ignore_null_adjustment"
+/-- Region predicates (defect classes decided on the table, the statement and the table contents
+before the statement): `Gms.C19.RegionVirtual`, `Gms.C19.RegionIgnoreAdjust`. -/
+def regionOf (T : Table) (rows : List Row) (st : Stmt) : String :=
+  if T.checksLost then "virtual_column_disables_checks"
+  else if stmtAdjusts T rows st then "ignore_null_adjustment"
   else "unclassified"
 
 def handle (p : List Sexp) : String :=
@@ -95,6 +92,8 @@ def handle (p : List Sexp) : String :=
     match cols.mapM parseCol, chks.mapM parseChk, stmts.mapM parseStmt with
     | some cols, some chks, some stmts =>
       let T : Table := { cols := cols, checks := chks }
+      -- the structural hypotheses of the theorems are evaluated on every case
+      if !T.wf || !(stmts.all (stmtWf T)) then answer "bad-case:hypotheses" else
       let (_, impl, spec, region) := stmts.foldl
         (fun (acc : List Row × String × String × String) st =>
           let (rows, impl, spec, region) := acc
@@ -103,7 +102,7 @@ def handle (p : List Sexp) : String :=
           let shown := isort pkLe (tableRows T rows')
           let body := cls ++ ";" ++ String.join (shown.map fmtRow) ++ ";ok="
           let ok := allStoredOk T rows'
-          let region := if region == "-" && !ok then regionOf T st else region
+          let region := if region == "-" && !ok then regionOf T rows st else region
           (rows', impl ++ body ++ (if ok then "1" else "0") ++ "|", spec ++ body ++ "1|", region))
         ([], "", "", "-")
       if impl == spec then answer impl else answer impl spec region
